@@ -186,12 +186,135 @@ def fresh_provider_ok(cx, site, hole, term, rep, where):
     return ok
 
 
+def _param_eq_arms(t, elem):
+    """t: value term of `match <elem> { GenericParam::Type(x) => x.ident == C, GenericParam::Const(c) => c.ident == C, _ => false }`
+    -> (set of kinds compared, C) or None"""
+    from ..terms import match_arms
+    ma = match_arms(t)
+    if ma is None or ma[0] != elem:
+        return None
+    kinds, cand = set(), None
+    for ps, v in ma[1]:
+        kind = None
+        for kname in ('Type', 'Const', 'Lifetime'):
+            if ps.startswith('GenericParam::' + kname) or ps.startswith('syn::GenericParam::' + kname):
+                kind = kname
+        if isinstance(v, tuple) and v[0] == 'bin' and v[1] == '==':
+            a, b = v[2], v[3]
+            idt = lambda x: isinstance(x, tuple) and x[0] == 'field' and x[2] == 'ident' and isinstance(x[1], tuple) and x[1][0] == 'payload' and x[1][3] == elem
+            if idt(a) and not idt(b):
+                c = b
+            elif idt(b) and not idt(a):
+                c = a
+            else:
+                return None
+            if kind is None:
+                return None
+            cand = cand if cand is not None else c
+            if c != cand:
+                return None
+            kinds.add(kind)
+        elif v == ('lit', 'Bool', False):
+            if kind in ('Type', 'Const') or ps == '_' and not {'Type', 'Const'} <= kinds:
+                return None
+        else:
+            return None
+    return kinds, cand
+
+
+def exists_param_named(cx, fw, cond, depth=0, scope=None):
+    """does the boolean expression `cond` mean "some type or const parameter of the type's generics is called C"?  -> (kinds, C term)"""
+    from ..syn import es
+    tm = cx.gm.terms_of(fw)
+    sc = scope or tm.scope_of_node(cond)
+    c = cond
+    while c['k'] == 'Paren':
+        c = c['expr']
+    if c['k'] == 'MethodCall' and c['method'] == 'any' and len(c['args']) == 1 and c['args'][0]['k'] == 'Closure' and len(c['args'][0]['params']) == 1:
+        if 'generics.params' not in es(c['recv']).replace(' ', ''):
+            return None
+        clo = c['args'][0]
+        p0 = clo['params'][0]
+        while p0.get('k') in ('Ref', 'Type'):
+            p0 = p0['pat']
+        if p0.get('k') != 'Ident' or '_ctx_entry' not in clo:
+            return None
+        body = clo['body']
+        bt = tm.block_value_term(body, 0) if body['k'] == 'Block' else tm.value_in_recorded_scope(body, 0)
+        elem = ('cparam', clo['_ctx_entry']['id'], p0['name'])
+        r = _param_eq_arms(bt, elem)
+        if r is None and isinstance(bt, tuple) and bt[0] == 'call' and str(bt[1]).startswith('crate::') and depth < 2:
+            # |p| helper(p, &cand)
+            r = _helper_pred(cx, bt, elem)
+        return r
+    if c['k'] == 'Call' and c['func']['k'] == 'Path' and depth < 2:
+        fns = cx.crate.find_fn(fw.fn.module, [x['id'] for x in c['func']['path']['segs']], fw.fn.self_ty)
+        if len(fns) != 1:
+            return None
+        g = fns[0]
+        gw = cx.fw(g)
+        gtm = cx.gm.terms_of(gw)
+        names = [p_[0] for p_ in g.params() if p_[0] != 'self']
+        if len(names) != len(c['args']):
+            return None
+        # g: `for p in <ast>.generics.params.. { if <p is named C> { return true; } } false`  or a tail expression of the `any` form
+        rets = [ev for ev in gw.events if ev.kind == 'exit' and ev.how == 'return']
+        res = None
+        if not rets and gw.tail is not None:
+            res = exists_param_named(cx, gw, gw.tail, depth + 1)
+        elif rets and gw.tail is not None and gtm.term(gw.tail, gtm.scope_of_node(gw.tail) or gw.root) == ('lit', 'Bool', False):
+            res = None
+            for ev in rets:
+                if ev.value is None or gtm.term(ev.value, ev.scope) != ('lit', 'Bool', True):
+                    return None
+                loops = [x for x in ev.ctx if x['k'] == 'for']
+                conds = [x for x in ev.ctx if x['k'] == 'if']
+                if len(loops) != 1 or len(conds) != 1 or not conds[0]['pol'] or 'generics.params' not in es(loops[0]['iter']).replace(' ', ''):
+                    return None
+                ct = gtm.term(conds[0]['cond'], conds[0]['scope'])
+                r = _param_eq_arms(ct, ('elem', loops[0]['id']))
+                if r is None:
+                    return None
+                res = (res[0] | r[0], res[1]) if res is not None and res[1] == r[1] else (r if res is None else None)
+                if res is None:
+                    return None
+        if res is None:
+            return None
+        kinds, cand = res
+        # map the helper's parameter back to the caller's argument
+        if isinstance(cand, tuple) and cand[0] == 'param' and cand[1] in names:
+            a = c['args'][names.index(cand[1])]
+            return kinds, tm.term(a, sc or fw.root)
+        return None
+    return None
+
+
+def _helper_pred(cx, bt, elem):
+    q = bt[1][len('crate::'):]
+    fns = [f for f in cx.crate.fns if f.qname == q]
+    if len(fns) != 1:
+        return None
+    g = fns[0]
+    gw = cx.fw(g)
+    gtm = cx.gm.terms_of(gw)
+    names = [p_[0] for p_ in g.params() if p_[0] != 'self']
+    if gw.tail is None or any(ev.kind == 'exit' and ev.how == 'return' for ev in gw.events) or len(names) != len(bt) - 2:
+        return None
+    from ..terms import subst_term
+    t = gtm.term(gw.tail, gtm.scope_of_node(gw.tail) or gw.root)
+    for n_, a_ in zip(names, bt[2:]):
+        t = subst_term(t, ('param', n_), a_)
+    return _param_eq_arms(t, elem)
+
+
 def check_fresh_provider(cx, f):
     """A fresh-name provider must (i) loop while its candidate equals the identifier of some parameter of the
     type's generics — comparing against *type and const* parameters (lifetimes live in another namespace) —
-    and (ii) return an identifier built from that same candidate."""
-    from ..syn import es, pat_s, walk_json
+    and (ii) return an identifier built from that same candidate, which (iii) the loop body extends."""
+    from ..syn import es
+    from ..terms import subterms
     fw = cx.fw(f)
+    tm = cx.gm.terms_of(fw)
     loops = [ev for ev in fw.events if ev.kind == 'loop']
     if len(loops) != 1:
         return False
@@ -199,77 +322,27 @@ def check_fresh_provider(cx, f):
     cond = lp.get('cond')
     if cond is None:
         return False
-    # cond: <generics params iter>.any(|param| <compares param ident with candidate>)
-    c = cond
-    if not (c['k'] == 'MethodCall' and c['method'] == 'any' and len(c['args']) == 1 and c['args'][0]['k'] == 'Closure'):
+    r = exists_param_named(cx, fw, cond, 0, loops[0].scope)
+    if r is None:
         return False
-    src = es(c['recv']).replace(' ', '')
-    if 'generics.params' not in src:
+    kinds, cand = r
+    if not {'Type', 'Const'} <= kinds:
         return False
-    clo = c['args'][0]
-    body = clo['body']
-    while body['k'] == 'Block' and len(body['stmts']) == 1 and body['stmts'][0]['k'] == 'Expr' and not body['stmts'][0]['semi']:
-        body = body['stmts'][0]['expr']
-    cand = None
-    rename = {}
-    if body['k'] == 'Call' and body['func']['k'] == 'Path':
-        # the comparison is delegated to a crate-local helper: analyse its body with the candidate argument substituted
-        fns = cx.crate.find_fn(f.module, [x['id'] for x in body['func']['path']['segs']], f.self_ty)
-        if len(fns) != 1:
-            return False
-        g = fns[0]
-        names = [p_[0] for p_ in g.params() if p_[0] != 'self']
-        if len(names) != len(body['args']):
-            return False
-        for n_, a_ in zip(names, body['args']):
-            rename[n_] = es(a_).lstrip('&*').strip()
-        gw = cx.fw(g)
-        if gw.tail is None or any(ev.kind == 'exit' and ev.how == 'return' for ev in gw.events):
-            return False
-        body = gw.tail
-    def side_name(x):
-        t = es(x).replace(' ', '').lstrip('&*')
-        return rename.get(t, t)
-    kinds_compared = set()
-    if body['k'] == 'Match':
-        for a in body['arms']:
-            ps = pat_s(a['pat'])
-            b = a['body']
-            if b['k'] == 'Binary' and b['op'] == '==':
-                l_, r_ = es(b['l_']).replace(' ', ''), es(b['r_']).replace(' ', '')
-                if l_.endswith('.ident'):
-                    side = side_name(b['r_'])
-                elif r_.endswith('.ident'):
-                    side = side_name(b['l_'])
-                else:
-                    return False
-                cand = cand or side
-                if side != cand:
-                    return False
-                for kname in ('Type', 'Const', 'Lifetime'):
-                    if 'GenericParam::' + kname in ps:
-                        kinds_compared.add(kname)
-            elif b['k'] == 'Lit' and b['lit'].get('v') is False:
-                if 'GenericParam::Type' in ps or 'GenericParam::Const' in ps or ps == '_':
-                    return False
-            else:
-                return False
-        if not {'Type', 'Const'} <= kinds_compared:
-            return False
-    else:
+    if not (isinstance(cand, tuple) and cand[0] == 'var'):
         return False
-    # the loop body must extend the candidate
-    body_txt = es(lp['body']).replace(' ', '')
-    if not (('%s.push(' % cand) in body_txt or ('%s.push_str(' % cand) in body_txt):
+    d = tm.def_by_id(cand[1])
+    if d is None:
         return False
-    # the returned identifier is built from the candidate
-    tail = fw.tail
-    if tail is None:
+    # (iii) the loop body extends the candidate
+    grows = [ev for ev in fw.events if ev.kind == 'mcall' and ev.method in ('push', 'push_str') and any(c_.get('id') == loops[0].entry['id'] for c_ in ev.ctx)
+             and tm.term(ev.recv, ev.scope) == cand]
+    if not grows:
         return False
-    tt = es(tail).replace(' ', '')
-    if cand not in tt:
+    # (ii) the returned identifier is built from the candidate
+    if fw.tail is None:
         return False
-    return True
+    tt = tm.term(fw.tail, tm.scope_of_node(fw.tail) or fw.root)
+    return any(x == cand for x in subterms(tt))
 
 
 def derived_binder_formats(cx, fn):
